@@ -70,6 +70,25 @@ def h_index_maps_layout(ctx, d, q, layout):
     ctx.claim('roundtrip_tt_qtt_tt', ctx.all_([ctx.eq(J[t][m], rows[t][m]) for t in range(2) for m in range(d)]))
 
 
+def h_concrete_large_q(ctx):
+    """Index maps at quantisation levels 9..11 (mode sizes 512..2048), concrete
+    indices spread over the whole range incl. both ends: mutually inverse, little
+    endian (the symbolic instances stop at q = 3, thorough 6)."""
+    ok = True
+    for q in (9, 10, 11):
+        N = 1 << q
+        vals = sorted(set([0, 1, 255, 256, 257, 511, 512 % N, N // 2, N - 2, N - 1] + [(37 * t * t + 11 * t) % N for t in range(40)]))
+        for d in (1, 2, 3):
+            I = np.array([[vals[(t * (k + 1) + k) % len(vals)] for k in range(d)] for t in range(len(vals))])
+            B = teneva.ind_tt_to_qtt(I, N)
+            ok = ok and B.shape == (len(I), d * q) and set(np.unique(B)) <= {0, 1}
+            for k in range(d):
+                ok = ok and np.array_equal((B[:, k * q:(k + 1) * q] * (1 << np.arange(q))).sum(axis=1), I[:, k])
+            ok = ok and np.array_equal(teneva.ind_qtt_to_tt(B, q), I)
+            ok = ok and np.array_equal(teneva.ind_qtt_to_tt(B[3], q), I[3]) and np.array_equal(teneva.ind_tt_to_qtt(I[3], N), B[3])
+    ctx.claim('index_maps_inverse_and_little_endian_for_large_q', bool(ok))
+
+
 def h_concrete_redundant_ranks(ctx):
     """tt_to_qtt on tensors whose TT-ranks are larger than necessary (Y + Y,
     zero-padded cores, ranks above the unfolding sizes): the bonds between modes
@@ -251,6 +270,7 @@ def instances(tier):
         for layout in ('F', 'T'):
             out.append({'func': 'h_index_maps_layout', 'params': {'d': d, 'q': q, 'layout': layout}})
     out.append({'func': 'h_concrete_redundant_ranks', 'params': {}, 'opts': {'concrete_only': True}})
+    out.append({'func': 'h_concrete_large_q', 'params': {}, 'opts': {'concrete_only': True}})
     for n in (3, 6):
         out.append({'func': 'h_non_power_of_two', 'params': {'n': n}})
     for n in (2 ** 17 + 1, 2 ** 30 + 1, 2 ** 40 - 1, 2 ** 52 + 1):
